@@ -223,3 +223,59 @@ example : iToList reversedShape (iGuarded { discardProg with body := discardProg
       (iGuarded addProg 7 (iGuarded addProg 8 (iGuarded addProg 9 Pyx.OSetPtr.empty)))) = [7, 9] := by decide
 
 end PyxProps.C17
+
+/-! ==========================================================================================================
+  AUDIT ROUND 1 REPAIRS (C17#1, #2, #3)  — appended section
+  ========================================================================================================== -/
+namespace PyxProps.C17
+open Pyx.OSet
+
+/-- C17#1 — iteration with removal of the visited elements, under `Repr`: it visits exactly `L` AND the store it leaves
+    behind again satisfies `Repr`, denoting `L` without the removed elements (so histories may continue from it) -/
+theorem iter_remove_keeps_repr (p : Nat → Bool) (s : Pyx.OSetPtr.Store) (L : List Nat) (h : Pyx.OSetPtr.Repr s L) :
+    (Pyx.OSetPtr.iterRem p s.fresh s (s.next 0)).1 = L ∧
+    Pyx.OSetPtr.Repr (Pyx.OSetPtr.iterRem p s.fresh s (s.next 0)).2 (L.filter (fun k => !p k)) := by
+  obtain ⟨as, ha⟩ := h
+  exact Pyx.OSetPtr.reprA_iterRem p ha
+
+/-- `POp` now has a third constructor `iterRm ks` (iterate, discarding the visited element when it is in `ks`), whose
+    list-level meaning is the abstract model's `iterRemove`; `ptr_reachable` above therefore covers every state reachable
+    by add / discard / iterate-with-removal sequences — restated here for the record -/
+theorem ptr_reachable_with_iteration (ops : List Pyx.OSetPtr.POp) (ks : List Nat) (l : T) :
+    Pyx.OSetPtr.absP (.iterRm ks) l = (Pyx.OSet.iterRemove (fun k => decide (k ∈ ks)) l).2 ∧
+    Pyx.OSetPtr.Repr (Pyx.OSetPtr.runP ops) (Pyx.OSetPtr.absRunP ops) ∧
+    Pyx.OSetPtr.toList (Pyx.OSetPtr.runP ops) = Pyx.OSetPtr.absRunP ops :=
+  ⟨rfl, (ptr_reachable ops).1, (ptr_reachable ops).2.1⟩
+
+/-- C17#2 — the observers, read off the pointers as the code does (`self.end[2][0]`, `self.end[1][0]`, `key in self.map`,
+    the length of the ring), agree with the list under `Repr`, hence in every reachable state -/
+theorem ptr_observers (s : Pyx.OSetPtr.Store) (L : List Nat) (h : Pyx.OSetPtr.Repr s L) :
+    Pyx.OSetPtr.ptrFirst s = L.head? ∧ Pyx.OSetPtr.ptrLast s = L.getLast? ∧
+    (∀ k, Pyx.OSetPtr.ptrMem k s = true ↔ k ∈ L) ∧ Pyx.OSetPtr.len s = L.length := by
+  obtain ⟨as, ha⟩ := h
+  exact Pyx.OSetPtr.reprA_observers ha
+
+theorem ptr_observers_reachable (ops : List Pyx.OSetPtr.POp) :
+    Pyx.OSetPtr.ptrFirst (Pyx.OSetPtr.runP ops) = (Pyx.OSetPtr.absRunP ops).head? ∧
+    Pyx.OSetPtr.ptrLast (Pyx.OSetPtr.runP ops) = (Pyx.OSetPtr.absRunP ops).getLast? ∧
+    (∀ k, Pyx.OSetPtr.ptrMem k (Pyx.OSetPtr.runP ops) = true ↔ k ∈ Pyx.OSetPtr.absRunP ops) ∧
+    Pyx.OSetPtr.len (Pyx.OSetPtr.runP ops) = (Pyx.OSetPtr.absRunP ops).length :=
+  ptr_observers _ _ (ptr_reachable ops).1
+
+/-- C17#3 — `==` without any hypothesis on the other collection: an ordered set equals an iterable exactly when it is
+    the iterable's first-occurrence de-duplication (`OrderedSet([3,1,2]) == [3,1,2,3,1]` is True) -/
+theorem eq_spec_unconditional (l : T) (other : List Nat) : eqIter l other = true ↔ l = dedupFirst other := by
+  unfold eqIter
+  rw [fromIter_eq_dedupFirst]
+  simp only [Bool.and_eq_true, beq_iff_eq]
+  constructor
+  · rintro ⟨_, h⟩; exact h
+  · intro h; subst h; exact ⟨rfl, rfl⟩
+
+example : eqIter [3, 1, 2] [3, 1, 2, 3, 1] = true ∧ eqIter [3, 1, 2] [1, 3, 2] = false := by decide
+example : Pyx.OSetPtr.absRunP [.add 9, .add 8, .add 7, .iterRm [9, 7], .add 5] = [8, 5] ∧
+    Pyx.OSetPtr.ptrFirst (Pyx.OSetPtr.runP [.add 9, .add 8, .add 7, .iterRm [9, 7], .add 5]) = some 8 ∧
+    Pyx.OSetPtr.ptrLast (Pyx.OSetPtr.runP [.add 9, .add 8, .add 7, .iterRm [9, 7], .add 5]) = some 5 ∧
+    Pyx.OSetPtr.ptrMem 9 (Pyx.OSetPtr.runP [.add 9, .add 8, .add 7, .iterRm [9, 7], .add 5]) = false := by decide
+
+end PyxProps.C17
